@@ -68,6 +68,10 @@ func TestGotransFixtures(t *testing.T) {
 	}
 	for _, s := range append(strs, "h\xffé!l", "\xe2\x82", "日本語l!x", "\xf0\x9f\x98\x80") {
 		s := s
+		for _, n := range []int{0, 3, 100} {
+			n := n
+			add("BufJoin", cs(s)+" "+cz(int64(n)), func() string { return cs(gtfix.BufJoin(s, n)) })
+		}
 		add("RuneSum", stDec+" "+cs(s), func() string { return cz(int64(gtfix.RuneSum(s))) })
 		add("RuneIdx", stDec+" "+cs(s), func() string { return cz(int64(gtfix.RuneIdx(s))) })
 	}
